@@ -380,6 +380,112 @@ def check_provenance(ck, prog, prog_xz, table=None, rule="C13-PROV", floor=4):
     ck.floor(rule, floor)
 
 
+def check_treewalk(ck, prog):
+    """index_tree_append(tree, node) re-links a node: it overwrites node->parent, ->left and ->right.  A function that
+    moves nodes from one tree to another (index_cat_helper, recursing over the source tree) therefore has to read the
+    node's old children BEFORE it appends the node: a read of the link members of the appended node after the call sees
+    NULL / the new links, and the rest of the source tree is dropped (Streams missing from the concatenated index while
+    the totals still count them)."""
+    ck.rule("C13-TREEWALK", "no link member of a node is read after index_tree_append() re-linked that node")
+    n = 0
+    for f in prog.fns_in("index.c"):
+        if not f.blocks:
+            continue
+        for b, i, e in f.iter_elems():
+            for c in ex.calls(e, into_refs=False):
+                if c.get("fn") != "index_tree_append" or len(c["args"]) < 2:
+                    continue
+                a = ex.strip(c["args"][1])
+                if a is not None and a.get("k") == "un" and a["op"] == "&":
+                    a = ex.strip(a["e"])
+                nodetxt = ex.show(a)
+                n += 1
+                ck.saw_function(f)
+                after = cfg.reachable(f, [y for y in b.succs if y is not None])
+                bad = None
+                for bb, ii, ee in f.iter_elems():
+                    if not ((bb.id == b.id and ii > i) or (bb.id in after and not (bb.id == b.id and ii <= i))):
+                        continue
+                    wl = {id(ex.strip(l)) for (l, r, op, nd) in ex.writes(ee)}
+                    for x in ex.walk(ee):
+                        if x.get("k") == "mem" and x.get("f") in ("left", "right", "parent") and id(x) not in wl and \
+                                ex.show(x.get("b")).replace("(", "").replace(")", "") in (nodetxt, nodetxt.replace("&", ""), "*" + nodetxt):
+                            bad = bad or x
+                ck.ob("C13-TREEWALK", "%s:%s" % (f.name, nodetxt), bad is None, common.where(f, bad or c),
+                      "%s: the links of %s are not read after index_tree_append()" % (f.name, nodetxt) if bad is None else
+                      "%s(): `%s` is read (line %s) after index_tree_append() re-linked %s (it sets parent/left/right of the "
+                      "appended node): the old subtree is lost -- the remaining nodes of the source tree are never moved, "
+                      "although the totals were already added" % (f.name, ex.show(bad), ex.line(bad), nodetxt),
+                      key="TREEWALK:%s" % f.name)
+    ck.floor("C13-TREEWALK", 3)
+
+
+def check_curpos(ck, prog):
+    """coder->file_cur_pos is the position in the FILE of the next byte the application will supply.  A helper that
+    advances it by `*p - start` for a pointer parameter p measures consumption of whatever buffer p belongs to: at a call
+    site where p is the position of the coder's own temporary buffer (`&coder->temp_pos`), the advance must be switched
+    off (a bool parameter that guards the update and is `false` at that site).  Otherwise bytes re-read from coder->temp
+    are counted as file progress and the next in-buffer seek lands at the wrong offset."""
+    ck.rule("C13-CURPOS", "file_cur_pos advances only by consumption of application input")
+    n = 0
+    fns = [f for f in prog.fns_in("file_info.c") if f.blocks]
+    for f in fns:
+        params = [v["n"] for v in f.vars if v.get("param")]
+        for b, i, e in f.iter_elems():
+            for (l, r, op, node) in ex.writes(e):
+                if not (ex.show(l).endswith("->file_cur_pos") and op == "+=" and r is not None):
+                    continue
+                # pointer parameters the amount is measured with (directly, through a local, or handed to lzma_bufcpy)
+                txt = ex.show(r)
+                locs = {}
+                for bb, ii, ee in f.iter_elems():
+                    e_ = ex.deref(ee)
+                    if e_.get("k") == "decl" and e_.get("init") is not None:
+                        locs[e_["n"]] = ex.show(e_["init"])
+                for nm, init in locs.items():
+                    if nm in txt:
+                        txt += " " + init
+                ptrs = [p_ for p_ in params if ("*" + p_) in txt or ("(" + p_ + ",") in txt or (", " + p_ + ",") in txt]
+                if not ptrs:
+                    continue
+                # bool parameter guarding the update
+                doms = cfg.dominators(f)
+                gpar = None
+                for d in doms.get(b.id, ()):
+                    tb = f.blocks[d]
+                    if tb.term and "cond" in tb.term and len(tb.succs) == 2:
+                        c = ex.strip(tb.term["cond"])
+                        if c.get("k") == "var" and c["n"] in params and (tb.succs[0] == b.id or tb.succs[0] in doms.get(b.id, ())):
+                            gpar = c["n"]
+                for g in fns:
+                    for bb, ii, ee in g.iter_elems():
+                        for c in ex.calls(ee, into_refs=False):
+                            if c.get("fn") != f.name:
+                                continue
+                            for p_ in ptrs:
+                                k = params.index(p_)
+                                if k >= len(c["args"]):
+                                    continue
+                                act = ex.strip(c["args"][k])
+                                internal = act is not None and act.get("k") == "un" and act["op"] == "&" and \
+                                    ex.show(act["e"]).startswith("coder->")
+                                n += 1
+                                ok = True
+                                if internal:
+                                    ok = gpar is not None and ex.const_val(c["args"][params.index(gpar)]) == 0
+                                ck.ob("C13-CURPOS", "%s<-%s:%s" % (f.name, g.name, ex.show(act)), ok, common.where(g, c),
+                                      "%s called with %s = %s%s" % (f.name, p_, ex.show(act),
+                                                                    " (update switched off by %s = false)" % gpar if internal else "")
+                                      if ok else
+                                      "%s() advances coder->file_cur_pos by `%s`, and %s() calls it with %s = %s, the position of the "
+                                      "coder's own buffer%s: data re-read from coder->temp is counted as progress in the file, so "
+                                      "later seek targets are computed from a wrong current position" % (
+                                          f.name, ex.show(r)[:40], g.name, p_, ex.show(act),
+                                          "" if gpar is None else " while %s is not false" % gpar),
+                                      key="CURPOS:%s:%s" % (f.name, ex.show(act)))
+    ck.floor("C13-CURPOS", 3)
+
+
 def check_seek_state(ck, prog):
     """file_info_decode() is re-entered after LZMA_SEEK_NEEDED in whatever state coder->sequence names.  A state body that
     moves the file position bookkeeping (compound update of a coder member) must therefore advance coder->sequence
@@ -428,9 +534,17 @@ def run(ck):
     check_strong(ck, prog)
     ck.rule("C13-LIMIT", "each limit of the format has its guard and the guard's failing edge returns the error")
     evaluate(ck, prog, "C13-LIMIT", LIMITS, floor=9)
+    # the Index decoder ends (LZMA_STREAM_END, index handed to the caller) only through its CRC32 comparison, and checks
+    # every field on the way (obligations shared with C05): a premature end gives the file-info decoder / xz --list a
+    # NULL or partial index
+    from . import C05
+    ck.rule("C13-IDXDEC", "index_decode reaches LZMA_STREAM_END only through the Index checks")
+    evaluate(ck, prog, "C13-IDXDEC", [t for t in C05.TABLE if getattr(t, "fn", "") == "index_decode"], floor=4)
     check_iter(ck, prog)
     check_seek(ck, prog)
     check_seek_state(ck, prog)
+    check_treewalk(ck, prog)
+    check_curpos(ck, prog)
     from . import reinit
     ck.rule("C13-APPLY", "an amount measured in this call (padding found, bytes used) is applied to the persistent "
                          "member it updates on every way out that the caller continues from")
